@@ -191,8 +191,13 @@ where
             // tag is in the future; if it's "multiple", keep sending all tags in
             // between where we are now and payload.delivery_tag
             if payload.multiple {
-                let ret = (self.to_confirm)(self.parent.expected);
+                // a tag already confirmed individually keeps that (earlier) outcome
+                let tag = self.parent.expected;
                 self.parent.expected += 1;
+                let ret = match self.parent.out_of_order.remove(&tag) {
+                    Some(earlier) => earlier,
+                    None => (self.to_confirm)(tag),
+                };
                 return Some(ret);
             } else {
                 // if it's _not_ multiple, stash it away in out_of_order
